@@ -749,12 +749,12 @@ func c15ExecLedger(prop string) func(st *State, line string) Result {
 			c.execConcurrent(f, prop, &res)
 		case "nop":
 			res.Out = "skip"
-		case "admit", "admitv":
-			// lock the inputs and persist the body; `admitv` does it only for a transaction the real
+		case "persist", "persistv":
+			// lock the inputs and persist the body; `persistv` does it only for a transaction the real
 			// Validate accepted (what the kernel does), and tells the model which of the two happened
 			id := c15Atoi(f[1])
 			tx := c.txByID[id]
-			if f[0] == "admitv" && !c.validated[id] {
+			if f[0] == "persistv" && !c.validated[id] {
 				res.Out, res.LeanIn = "skip", "nop"
 				break
 			}
@@ -768,8 +768,8 @@ func c15ExecLedger(prop string) func(st *State, line string) Result {
 				}
 				return "ok"
 			})
-			res.Out, res.LeanIn = out, "admit "+f[1]+" "+f[2]
-			res.Tags = append(res.Tags, "admit:"+out)
+			res.Out, res.LeanIn = out, "persist "+f[1]+" "+f[2]
+			res.Tags = append(res.Tags, "persist:"+out)
 			c.pending[id] = c.locked[id] && out == "ok"
 		case "snapv":
 			// finalize only what the node's own validation accepted: every member is either finalized
